@@ -7,7 +7,7 @@ import unicodedata
 from functools import lru_cache
 
 from .oracles import nat as onat
-from .oracles.core import ALNUM, ASCII_DIGITS, ASCII_UPPER, IbanOracle, canonical_digits
+from .oracles.core import ALNUM, ASCII_DIGITS, ASCII_UPPER, IbanOracle, canonical_digits, matches_structure
 
 WHITESPACE = ["\t", "\n", "\r", "\x0b", "\x0c", "\x1c", "\x1d", "\x1e", "\x1f", " ", "\x85", "\xa0", "\u1680",
               *[chr(c) for c in range(0x2000, 0x200B)], "\u2028", "\u2029", "\u202f", "\u205f", "\u3000"]
@@ -254,34 +254,45 @@ class Gen:
             b = self.bban(cc, rng, variant)
             if cc not in onat.LISTED:
                 return b
-            if cc == "NO" and b[pos["account_code"][0]:pos["account_code"][0] + 2] == "00":
-                continue
-            fld = onat.check_field(pos)
-            if fld is not None:
-                a, e = fld
-                width = e - a
-                cands = ([f"{i:0{width}d}" for i in range(10 ** width)] if cl[a] == "n"
-                         else list(ASCII_UPPER))
-                start = rng.randrange(len(cands))
-                for i in range(len(cands)):
-                    v = cands[(start + i) % len(cands)]
-                    b2 = b[:a] + v + b[e:]
-                    if onat.ref(cc, b2, pos) is True:
-                        return b2
-                continue
-            if cc in ("CZ", "SK"):
-                b2 = self._solve_last_digit(cc, b, pos, "branch_code")
-                b2 = self._solve_last_digit(cc, b2, pos, "account_code") if b2 else None
-                if b2 and onat.ref(cc, b2, pos) is True:
+            b2 = self.natvalid_from(cc, b, rng)
+            if b2:
+                return b2
+        return None
+
+    def natvalid_from(self, cc, b, rng=None):
+        """The given BBAN with its national check part (the check field, or the last digit of the checked fields) replaced
+        so that O-nat accepts it; None if that is impossible for these other fields."""
+        pos = self.o.positions(cc)
+        cl = self.classes(cc)
+        if cc not in onat.LISTED:
+            return b
+        if onat.missing_fields(cc, pos):
+            return None
+        if cc == "NO" and b[pos["account_code"][0]:pos["account_code"][0] + 2] == "00":
+            return None
+        fld = onat.check_field(pos)
+        if fld is not None:
+            a, e = fld
+            width = e - a
+            cands = ([f"{i:0{width}d}" for i in range(10 ** width)] if cl[a] == "n"
+                     else list(ASCII_UPPER))
+            start = rng.randrange(len(cands)) if rng is not None else 0
+            for i in range(len(cands)):
+                v = cands[(start + i) % len(cands)]
+                b2 = b[:a] + v + b[e:]
+                if onat.ref(cc, b2, pos) is True:
                     return b2
-                continue
-            if cc == "IS":
-                a, e = pos["account_holder_id"]
-                for dgt in ASCII_DIGITS:
-                    b2 = b[:a + 8] + dgt + b[a + 9:]
-                    if onat.ref(cc, b2, pos) is True:
-                        return b2
-                continue
+            return None
+        if cc in ("CZ", "SK"):
+            b2 = self._solve_last_digit(cc, b, pos, "branch_code")
+            b2 = self._solve_last_digit(cc, b2, pos, "account_code") if b2 else None
+            return b2 if (b2 and onat.ref(cc, b2, pos) is True) else None
+        if cc == "IS":
+            a, e = pos["account_holder_id"]
+            for dgt in ASCII_DIGITS:
+                b2 = b[:a + 8] + dgt + b[a + 9:]
+                if onat.ref(cc, b2, pos) is True:
+                    return b2
         return None
 
     def _solve_last_digit(self, cc, b, pos, field):
@@ -384,3 +395,21 @@ def equivalents_table():
                 table[a].append(ch)
         _EQUIV.update(table)
     return _EQUIV
+
+
+def nested_iban_bbans(g, cc, rng, per=2):
+    """BBANs of `cc` that are, as a text, valid IBANs of another country (whose IBAN is as long as cc's BBAN and fits its
+    structure): an input that is itself a valid instance of the neighbouring type."""
+    o = g.o
+    out = []
+    n = o.bban_length(cc)
+    for s_ in o.countries():
+        if s_ == cc or o.bban_length(s_) + 4 != n:
+            continue
+        for _ in range(per * 4):
+            t = g.iban(s_, rng)
+            if matches_structure(o.toks[cc], t):
+                out.append((s_, t))
+                if len([1 for x in out if x[0] == s_]) >= per:
+                    break
+    return out
